@@ -17,8 +17,8 @@ META = dict(
            'choice(k, size, replace=False) returns solver-chosen pairwise distinct indices (numpy contract); the global numpy.random.shuffle/choice are rebound to the same carrier',
            'numpy -> np_shim (in-place semantics of shuffle on the shared array preserved)'],
     assumptions=['interleavings of next() calls of two iterators over one dataset object are a solver-chosen bool per step'],
-    bounds=dict(quick='n <= 3 (local shuffle with two interleaved iterators: n <= 2), buffer_size 1..n+1, 2n interleaving steps', thorough='n <= 4 (two iterators: n <= 3), buffer_size 1..n+1'),
-    outside=['three iterators in flight', 'n above the bound'],
+    bounds=dict(quick='n <= 3 (local shuffle with two interleaved iterators: n <= 2; three iterators: n <= 2), buffer_size 1..n+1, 2n / 3n interleaving steps; self-zip / zip3 / self-intersperse n <= 3', thorough='n <= 4 (two / three iterators: n <= 3), buffer_size 1..n+1'),
+    outside=['four or more iterators in flight', 'n above the bound', 'self-zip of a per-epoch reshuffle with n >= 2 is the known finding KF-C12 (same history) and is not asked again'],
 )
 
 XS = [(f'x{i}', 'int') for i in range(4)]
@@ -65,8 +65,7 @@ def body_reshuffle2(backing, n, *args):
     for step in range(2 * n):
         w = 0 if s[step] else 1
         o = 1 - w
-        if len(outs[w]) >= n:
-            continue
+        rt.assume(len(outs[w]) < n)          # every step is real (see body_three): C(2n, n) schedules instead of 2^(2n) vectors
         if len(outs[w]) == 0 and 0 < len(outs[o]) < n and rt.known(KF):
             # known finding KF: an iterator draws its permutation (first next()) while another iterator of the same
             # object is part-way through (has yielded between 1 and n-1 examples): the shared array is reshuffled in place
@@ -95,8 +94,8 @@ def body_frozen2(path, n, *args):
     outs = [[], []]
     for step in range(2 * n):
         w = 0 if s[step] else 1
-        if len(outs[w]) < n:
-            outs[w].append(next(its[w]))
+        rt.assume(len(outs[w]) < n)
+        outs[w].append(next(its[w]))
     rt.reached()
     for out in outs:
         if len(out) == n and not _is_perm_of(out, n):
@@ -135,12 +134,15 @@ def body_local(backing, n, bsz, two, *args):
     it1, it2 = iter(ds), iter(ds)
     o1, o2 = [], []
     for step in range(2 * n):
-        if s[step] or not two:
+        if not two:
             if len(o1) < n:
                 o1.append(next(it1))
+        elif s[step]:
+            rt.assume(len(o1) < n)
+            o1.append(next(it1))
         else:
-            if len(o2) < n:
-                o2.append(next(it2))
+            rt.assume(len(o2) < n)
+            o2.append(next(it2))
     rt.reached()
     if not two and len(o1) != n:
         return False
@@ -200,6 +202,97 @@ def body_choice(n, size, replace, c0, c1, c2):
     return all(0 <= v < n for v in out)
 
 
+def _mk(kind, n, bsz, rng):
+    src = ListDataset(list(range(n)))
+    if kind == 'reshuffle':
+        return src.shuffle(True, rng=rng)
+    if kind == 'local':
+        return src.shuffle(True, rng=rng, buffer_size=bsz)
+    if kind == 'oneshot':
+        return src.shuffle(False, rng=rng)
+    if kind == 'frozen':
+        return src.shuffle(True, rng=rng).copy(freeze=True)
+    if kind == 'catch':
+        return src.shuffle(True, rng=rng).catch()
+    if kind == 'prefetch':
+        return src.shuffle(True, rng=rng).prefetch(2, 2)
+    raise ValueError(kind)
+
+
+def body_three(kind, n, bsz, *args):
+    """three iterators in flight over one dataset object, arbitrary interleaving of their next() calls (a solver-chosen iterator per step;
+    each iterator is created immediately before its first next())"""
+    c, w3 = list(args[:21]), list(args[21:])
+    rng = rt.Rng(sel=c[9:], choices=c[:9])
+    ds = _mk(kind, n, bsz, rng)
+    its = [None, None, None]
+    outs = [[], [], []]
+    started = 0
+    for step in range(3 * n):
+        w = w3[step]
+        # the three iterators are created at their first use, so they are interchangeable until then: without loss of generality
+        # they are first used in the order 0, 1, 2 (symmetry reduction by renaming, 6x fewer schedules)
+        rt.assume(0 <= w)
+        rt.assume(w <= started)
+        rt.assume(w < 3)
+        w = 0 if w == 0 else (1 if w == 1 else 2)
+        # every step advances an unfinished iterator: all 3n steps are real, all iterators complete.  Partial iterations are the
+        # prefixes of these schedules, and every assertion below is monotone in the outputs, so nothing is lost
+        rt.assume(len(outs[w]) < n)
+        if kind == 'reshuffle' and len(outs[w]) == 0 and rt.known(KF):
+            for o in range(3):
+                if o != w and 0 < len(outs[o]) < n:
+                    rt.assume(False)         # known finding KF (see body_reshuffle2)
+        if its[w] is None:
+            its[w] = iter(ds)
+            started += 1
+        outs[w].append(next(its[w]))
+    rt.reached()
+    for out in outs:
+        if len(out) == n and not _is_perm_of(out, n):
+            return False
+        if kind == 'local':
+            for p, sidx in enumerate(out):
+                if sidx - p > bsz - 1:
+                    return False
+    return True
+
+
+def body_selfcomp(kind, comp, n, bsz, *args):
+    """a dataset with a random stage combined with itself (zip / intersperse): the combinator keeps several iterators of one object in
+    flight; every component stream is a permutation, fixed-order datasets give identical component streams"""
+    c = list(args)
+    rng = rt.Rng(sel=c[9:], choices=c[:9])
+    ds = _mk(kind, n, bsz, rng)
+    if comp == 'zip':
+        out = list(ds.zip(ds))
+        streams = [[t[0] for t in out], [t[1] for t in out]]
+    elif comp == 'zip3':
+        out = list(ds.zip(ds, ds))
+        streams = [[t[0] for t in out], [t[1] for t in out], [t[2] for t in out]]
+    else:
+        out = list(ds.intersperse(ds))
+        if len(out) != 2 * n:
+            return False
+        # IntersperseDataset(a, a) alternates a, a', a, a', ... for equally long inputs (reference: engine.universe.intersperse_order)
+        from engine import universe as U
+        order = U.intersperse_order([n, n])
+        streams = [[out[i] for i in range(2 * n) if order[i][0] == 0], [out[i] for i in range(2 * n) if order[i][0] == 1]]
+    rt.reached()
+    for st in streams:
+        if not _is_perm_of(st, n):
+            return False
+        if kind == 'local':
+            for p, sidx in enumerate(st):
+                if sidx - p > bsz - 1:
+                    return False
+    if kind in ('oneshot', 'frozen'):
+        for st in streams[1:]:
+            if st != streams[0]:
+                return False
+    return True
+
+
 def _nmax(tier):
     return 3 if tier == 'quick' else 4
 
@@ -208,9 +301,9 @@ FAMILIES = [
     Family('oneshot', body_oneshot, ['backing', 'n'], RS, lambda tier, seed: [(b, n) for b in ('list', 'dict') for n in range(0, _nmax(tier) + 1)],
            timeout=dict(quick=60, thorough=300), desc='shuffle(False, rng): a fixed permutation, keys attached'),
     Family('reshuffle2', body_reshuffle2, ['backing', 'n'], RS + SS, lambda tier, seed: [(b, n) for b in ('list', 'dict') for n in range(1, _nmax(tier) + 1)],
-           timeout=dict(quick=90, thorough=900), desc='two iterators in flight over one ReShuffleDataset'),
+           timeout=dict(quick=300, thorough=900), desc='two iterators in flight over one ReShuffleDataset'),
     Family('frozen2', body_frozen2, ['path', 'n'], RS + SS, lambda tier, seed: [(p, n) for p in ('catch', 'prefetch', 'copies') for n in range(1, _nmax(tier) + 1)],
-           timeout=dict(quick=90, thorough=900), desc='two iterators in flight over per-iteration frozen copies of a ReShuffleDataset'),
+           timeout=dict(quick=300, thorough=900), desc='two iterators in flight over per-iteration frozen copies of a ReShuffleDataset'),
     Family('reshuffle_seq', body_reshuffle_seq, ['backing', 'n', 'epochs'], RS,
            lambda tier, seed: [(b, n, e) for b in ('list', 'dict') for n in range(0, 4) for e in (1, 2, 3) if n * e <= 9 and (n < 3 or e < 3 or tier != 'quick')],
            timeout=dict(quick=90, thorough=900), desc='consecutive epochs of a ReShuffleDataset'),
@@ -222,4 +315,12 @@ FAMILIES = [
     Family('choice', body_choice, ['n', 'size', 'replace'], [('c0', 'int'), ('c1', 'int'), ('c2', 'int')],
            lambda tier, seed: [(n, sz, rp) for n in range(1, 5) for sz in (None, 0, 1, 2, 3) for rp in (False, True) if (sz is None and not rp) or (sz is not None and (rp or sz <= n))],
            timeout=60, desc='random_choice: in range, without replacement no example twice, arguments forwarded'),
+    Family('three', body_three, ['kind', 'n', 'bsz'], [(f'c{i}', 'int') for i in range(21)] + [(f'w{i}', 'int') for i in range(9)],
+           lambda tier, seed: [(k, n, b) for k in ('reshuffle', 'local', 'frozen', 'catch', 'prefetch', 'oneshot') for n in range(1, (3 if tier == 'quick' else 4))
+                               for b in ((1, 2, 3)[:n + 1] if k == 'local' else (0,))],
+           timeout=dict(quick=300, thorough=1500), desc='three iterators in flight over one dataset object (reshuffle, local shuffle, frozen copies, one-time shuffle)'),
+    Family('selfcomp', body_selfcomp, ['kind', 'comp', 'n', 'bsz'], [(f'c{i}', 'int') for i in range(21)],
+           lambda tier, seed: [(k, c, n, b) for k in ('local', 'frozen', 'oneshot', 'prefetch') for c in ('zip', 'zip3', 'isp') for n in range((1 if c == 'isp' else 0), _nmax(tier) + (0 if c != 'zip3' else -1))
+                               for b in ((1, 2, 3, 4)[:n + 1] if k == 'local' else (0,))],
+           timeout=dict(quick=120, thorough=900), desc='self-zip / self-intersperse of a dataset with a random stage: every component stream is a permutation'),
 ]
